@@ -22,6 +22,7 @@ import (
 )
 
 const overlayJSON = "/verif/.build/overlay-c19/overlay.json"
+const mutOverlayJSON = "/verif/.build/overlay-c19.mut/overlay.json"
 
 type srcFile struct {
 	lines []string
@@ -50,6 +51,11 @@ func loadSources() {
 	path := overlayJSON
 	if p := os.Getenv("VERIF_C19_OVERLAY"); p != "" {
 		path = p
+	} else if os.Getenv("VERIF_MUT_OVERLAY") != "" {
+		// a build against deliberately changed sources (seedcheck, mutation experiments) has its own instrumented
+		// files (bin/check: overlay-c19.mut); the labels, and with them the classification of sites (atomic load,
+		// store write, read section, known classes), must be read from those: the line numbers of a changed file differ
+		path = mutOverlayJSON
 	}
 	b, err := os.ReadFile(path)
 	if err != nil {
